@@ -36,6 +36,9 @@ const (
 	thIOError          // not permanent
 	thSQLBroken        // 1146, permanent
 	thSQLErrPersistent // 1032 on every apply: not "permanent" for mysync, but START REPLICA never cures it
+	// the IO thread cannot connect (2003) for as long as the replica points anywhere but at the recorded
+	// master (a dead or unwilling old source): START REPLICA alone never cures it, re-pointing does
+	thIOErrUntilRepointed
 )
 
 type c10Node struct {
@@ -137,6 +140,8 @@ func c10Run(r *vt.Run, c c10Case) (points []sim.Point) {
 					s.SQLRunning, s.SQLErrno, s.SQLError, s.InjectSQLErrno = false, 1146, "Table doesn't exist", 1146
 				case thSQLErrPersistent:
 					s.SQLRunning, s.SQLErrno, s.SQLError, s.InjectSQLErrno = false, 1032, "Can't find record", 1032
+				case thIOErrUntilRepointed:
+					s.IORunning, s.IOErrno, s.IOError = false, 2003, "error connecting to source"
 				}
 			}
 		}
@@ -262,6 +267,9 @@ func c10Run(r *vt.Run, c c10Case) (points []sim.Point) {
 				return
 			}
 			for i, x := range spec.HA {
+				if s := w.Servers[x]; i > 0 && c.Nodes[i-1].Threads == thIOErrUntilRepointed && s.HasSource && s.Source != "h1" && s.IORunning {
+					s.IORunning, s.IOErrno, s.IOError = false, 2003, "error connecting to source" // the connection attempt fails again
+				}
 				w.Replicate(x)
 				if c.Retry != 0 && i > 0 && c.Nodes[i-1].Threads == thSQLErrPersistent && c.Retry&(1<<uint(round)) == 0 {
 					continue // has not come to the failing event again yet
@@ -337,7 +345,7 @@ func checkC10(r *vt.Run) {
 	for _, ro := range []bool{true, false} {
 		for _, off := range []bool{false, true} {
 			for src := srcMaster; src <= srcNone; src++ {
-				for th := thBoth; th <= thSQLErrPersistent; th++ {
+				for th := thBoth; th <= thIOErrUntilRepointed; th++ {
 					if src == srcNone && th != thBoth {
 						continue
 					}
